@@ -25,7 +25,7 @@ ASSUMPTIONS = ['order between the invariant blocks of different active states is
                'conditions are side-effect free apart from the probe']
 KINDS = ['state.pre', 'state.post', 'state.inv', 'trans.pre', 'trans.inv_before', 'trans.post', 'trans.inv_after',
          'state.inv_on_none_step']
-REQUIRED_COUNTERS = ['text_collision_steps', 'grammar_steps_checked', 'faults_injected', 'old_values_checked'] + ['fault_' + k for k in KINDS]
+REQUIRED_COUNTERS = ['runs_with_second_live_interpreter', 'text_collision_steps', 'grammar_steps_checked', 'faults_injected', 'old_values_checked'] + ['fault_' + k for k in KINDS]
 TIERS = dict(quick=dict(steps=25, faults=25, gen=dict(max_states=10, max_depth=4, max_trans=12)),
              thorough=dict(steps=45, faults=400, gen=dict(max_states=16, max_depth=5, max_trans=20)))
 
@@ -88,6 +88,9 @@ class VCoder(build.Coder):
             act = ' and (active(%r) or True)' % ch['order'][(h // 3) % len(ch['order'])]
         if kind == 'pre':
             return 'K(%r, time, None)%s' % (cid, act)
+        if kind == 'inv' and not owner_is_transition and h % 2 == 0:
+            # sent(name): "an event with that name was sent during the current step" - impossible when no code ran
+            act += ' and (not sent(%r) or W())' % ch['events'][h % len(ch['events'])]
         return 'K(%r, time, (__old__.v, __old__.box.n, len(__old__.lst)))%s' % (cid, act)
 
 
@@ -273,10 +276,32 @@ def run_case(acc, rnd, tier, case):
     # ---- (1) fault-free run against the grammar ----------------------------------------------------
     sc, tmap, pr, it = fresh(ch, valseed, p_true)
     r = Runner(it, tmap, log=pr.log)
+    shadow = None
+    if rnd.random() < 0.3:
+        # a second live interpreter on the very same Statechart object, fed the same inputs one operation ahead, with
+        # other values in its context: snapshots (__old__) belong to an interpreter, not to the statechart
+        pr2 = Probes(val=make_val(valseed, p_true))
+        it2 = Interpreter(sc, initial_context=pr2.context(v=5000, box=Box(), lst=[0] * 7))
+        it2.context['box'].n = 5000
+        shadow = Runner(it2, tmap, log=pr2.log)
+        acc.count('runs_with_second_live_interpreter')
+    backlog = []
     vstate = dict(v=0, entry={})
     occs = []         # (occurrence index, cid, kindtag, step number)
     k = 0
     for op in script:
+        if shadow is not None:
+            # the second interpreter lags one macro step behind: it (re)enters states after the first one did
+            backlog.append(op)
+            if op[0] == 'step':
+                steps_in_backlog = sum(1 for x in backlog if x[0] == 'step')
+                while steps_in_backlog > 1 and not shadow.dead:
+                    x = backlog.pop(0)
+                    o2 = shadow.apply(x)
+                    if x[0] == 'step':
+                        steps_in_backlog -= 1
+                        if o2[0] == 'raise':
+                            shadow.dead = True
         if op[0] != 'step':
             r.apply(op)
             continue
